@@ -443,9 +443,18 @@ Definition esr_read_chunk (K : nat) (e : esr) : option (list N) * esr :=
 
 (* ================= CCsvStreamReader ================= *)
 
+(* The class reaches its CEncodedStreamReader<char> through ReadChunk and IsEnd only, so it is written over ANY chunk
+   source: a state of type E, rd = ReadChunk (None = EndFile, Some chunk = Success with the chunk appended to the
+   decoded buffer) and iend = IsEnd.  Instances: the UTF-8 reader above with chunk size K (csv_load_stream), an
+   arbitrary list of chunks (csv_load_chunks, below). *)
+Section SRC.
+Variable E : Type.
+Variable rd : E -> option (list N) * E.
+Variable iend : E -> bool.
+
 Record sreader := mkS {
   s_buf : list N;             (* mDecodedBuffer *)
-  s_esr : esr;                (* mEncodedStreamReader *)
+  s_esr : E;                  (* mEncodedStreamReader *)
   s_headers : list (list N);
   s_metas : list meta;
   s_pos : nat;
@@ -455,44 +464,44 @@ Record sreader := mkS {
   s_prev : nat
 }.
 
-Definition s_is_end (s : sreader) : bool := Nat.leb (length (s_buf s)) (s_pos s) && esr_is_end (s_esr s).   (* IsEnd, header 58 *)
+Definition s_is_end (s : sreader) : bool := Nat.leb (length (s_buf s)) (s_pos s) && iend (s_esr s).   (* IsEnd, header 58 *)
 
 (* ParseNextLine, loops 344-410.  todo is mDecodedBuffer[pos..] (redundant with buf and pos, kept so that a
    step does not index the buffer); the other arguments as in parse_line.
    Returns (values, buffer, stream reader, mCurrentPos). *)
-Fixpoint s_scan (fuel : nat) (K : nat) (sep : N) (buf todo : list N) (e : esr) (pos start dq : nat) (cr : option nat)
-                (acc : list meta) : outcome (list meta * list N * esr * nat) :=
+Fixpoint s_scan (fuel : nat) (sep : N) (buf todo : list N) (e : E) (pos start dq : nat) (cr : option nat)
+                (acc : list meta) : outcome (list meta * list N * E * nat) :=
   match fuel with
   | O => OutOfFuel
   | S f =>
     match todo with
     | [] =>                                                     (* 353: mCurrentPos == mDecodedBuffer.size() *)
-      match esr_read_chunk K e with
-      | (Some chunk, e') => s_scan f K sep (buf ++ chunk) chunk e' pos start dq cr acc
+      match rd e with
+      | (Some chunk, e') => s_scan f sep (buf ++ chunk) chunk e' pos start dq cr acc
       | (None, e') => Ok (mk_value start (length buf) dq :: acc, buf, e', pos)    (* EndFile: 360-365 *)
       end
     | c :: t =>
-      if c =? DQ then s_scan f K sep buf t e (S pos) start (S dq) cr acc
+      if c =? DQ then s_scan f sep buf t e (S pos) start (S dq) cr acc
       else if (c =? sep) && Nat.even dq then
-        s_scan f K sep buf t e (S pos) (S pos) 0 None (mk_value start pos dq :: acc)
-      else if c =? CR then s_scan f K sep buf t e (S pos) start dq (Some pos) acc
+        s_scan f sep buf t e (S pos) (S pos) 0 None (mk_value start pos dq :: acc)
+      else if c =? CR then s_scan f sep buf t e (S pos) start dq (Some pos) acc
       else if (c =? LF) && Nat.even dq then Ok (mk_value start (lf_end cr pos) dq :: acc, buf, e, S pos)
-      else if is_nil t && esr_is_end e then                     (* 399-404: last byte of the last chunk *)
+      else if is_nil t && iend e then                     (* 399-404: last byte of the last chunk *)
         Ok (mk_value start (length buf) dq :: acc, buf, e, length buf)
-      else s_scan f K sep buf t e (S pos) start dq cr acc
+      else s_scan f sep buf t e (S pos) start dq cr acc
     end
   end.
 
 (* ParseNextLine (327-419) *)
-Definition s_parse_next_line (fuel K : nat) (sep : N) (s : sreader) : outcome (bool * sreader) :=
+Definition s_parse_next_line (fuel : nat) (sep : N) (s : sreader) : outcome (bool * sreader) :=
   if s_is_end s then Ok (false, s)
   else
     let buf0 := skipn (s_pos s) (s_buf s) in                     (* 338-342: erase(0, mCurrentPos) *)
-    match s_scan fuel K sep buf0 buf0 (s_esr s) 0 0 0 None [] with
+    match s_scan fuel sep buf0 buf0 (s_esr s) 0 0 0 None [] with
     | Ok (vals, buf1, e1, pos1) =>
       let (buf2, e2) :=
         if Nat.eqb pos1 (length buf1) then                       (* 413-416 *)
-          match esr_read_chunk K e1 with
+          match rd e1 with
           | (Some chunk, e') => (buf1 ++ chunk, e')
           | (None, e') => (buf1, e')
           end
@@ -556,10 +565,10 @@ Fixpoint s_read_headers (n : nat) (s : sreader) (acc : list (list N)) : outcome 
   end.
 
 (* constructor (222-244) *)
-Definition s_new (fuel K : nat) (with_header : bool) (sep : N) (text : list N) : outcome sreader :=
-  let s0 := mkS [] (esr_new K text) [] [] 0 0 0 0 0 in
+Definition s_new (fuel : nat) (with_header : bool) (sep : N) (e0 : E) : outcome sreader :=
+  let s0 := mkS [] e0 [] [] 0 0 0 0 0 in
   if with_header then
-    match s_parse_next_line fuel K sep s0 with
+    match s_parse_next_line fuel sep s0 with
     | Ok (true, s1) =>
       match s_read_headers (length (s_metas s1)) s1 [] with
       | Ok (hs, s2) => Ok (mkS (s_buf s2) (s_esr s2) hs (s_metas s2) (s_pos s2) (s_line s2) (s_rowidx s2) (s_validx s2) (s_prev s2))
@@ -571,8 +580,8 @@ Definition s_new (fuel K : nat) (with_header : bool) (sep : N) (text : list N) :
   else Ok s0.
 
 (* ParseNextRow (297-325) *)
-Definition s_parse_next_row (fuel K : nat) (with_header : bool) (sep : N) (s : sreader) : outcome (bool * sreader) :=
-  match s_parse_next_line fuel K sep s with
+Definition s_parse_next_row (fuel : nat) (with_header : bool) (sep : N) (s : sreader) : outcome (bool * sreader) :=
+  match s_parse_next_line fuel sep s with
   | Ok (true, s1) =>
     if with_header && negb (Nat.eqb (length (s_headers s1)) (length (s_metas s1))) then Err ParsingError
     else if negb with_header && Nat.leb 2 (s_line s1) && negb (Nat.eqb (s_prev s1) (length (s_metas s1))) then Err ParsingError
@@ -611,18 +620,18 @@ Fixpoint s_read_keys (s : sreader) (keys : list (list N)) (acc : list (option (l
     end
   end.
 
-Fixpoint s_load_rows (fuel : nat) (fuel_line K : nat) (sep : N) (keys : list (list N)) (s : sreader) (acc : list (list (option (list N)))) : outcome (list (list (option (list N)))) :=
+Fixpoint s_load_rows (fuel : nat) (fuel_line : nat) (sep : N) (keys : list (list N)) (s : sreader) (acc : list (list (option (list N)))) : outcome (list (list (option (list N)))) :=
   match fuel with
   | O => OutOfFuel
   | S f =>
     if s_is_end s then Ok acc
-    else match s_parse_next_row fuel_line K true sep s with
+    else match s_parse_next_row fuel_line true sep s with
          | Ok (true, s1) =>
            match s_read_keys s1 keys [] with
-           | Ok (cells, s2) => s_load_rows f fuel_line K sep keys s2 (acc ++ [cells])
+           | Ok (cells, s2) => s_load_rows f fuel_line sep keys s2 (acc ++ [cells])
            | Err e => Err e | Terminate => Terminate | UB => UB | OutOfFuel => OutOfFuel
            end
-         | Ok (false, s1) => s_load_rows f fuel_line K sep keys s1 (acc ++ [[]])
+         | Ok (false, s1) => s_load_rows f fuel_line sep keys s1 (acc ++ [[]])
          | Err e => Err e | Terminate => Terminate | UB => UB | OutOfFuel => OutOfFuel
          end
   end.
@@ -631,12 +640,38 @@ Fixpoint s_load_rows (fuel : nat) (fuel_line K : nat) (sep : N) (keys : list (li
    non-empty chunk from the stream, a line consumes at least one byte *)
 Definition stream_fuel (text : list N) : nat := (2 * length text + 4)%nat.
 
-Definition csv_load_stream (K : nat) (sep : N) (keys : list (list N)) (text : list N) : outcome (list (list (option (list N)))) :=
+(* LoadObject over a source that is going to deliver n bytes *)
+Definition csv_load_src (n : nat) (sep : N) (keys : list (list N)) (e0 : E) : outcome (list (list (option (list N)))) :=
   if negb (validate_separator sep) then Err InvalidOptions
-  else match s_new (stream_fuel text) K true sep text with
-       | Ok s => s_load_rows (S (length text)) (stream_fuel text) K sep keys s []
+  else match s_new (2 * n + 4) true sep e0 with
+       | Ok s => s_load_rows (S n) (2 * n + 4) sep keys s []
        | Err e => Err e | Terminate => Terminate | UB => UB | OutOfFuel => OutOfFuel
        end.
+End SRC.
+
+Arguments mkS {E}. Arguments s_buf {E}. Arguments s_esr {E}. Arguments s_headers {E}. Arguments s_metas {E}.
+Arguments s_pos {E}. Arguments s_line {E}. Arguments s_rowidx {E}. Arguments s_validx {E}. Arguments s_prev {E}.
+Arguments s_is_end {E}. Arguments s_scan {E}. Arguments s_parse_next_line {E}. Arguments s_with {E}.
+Arguments s_with_meta {E}. Arguments s_read_next {E}. Arguments s_read_headers {E}. Arguments s_new {E}.
+Arguments s_parse_next_row {E}. Arguments s_read_key {E}. Arguments s_read_keys {E}. Arguments s_load_rows {E}.
+Arguments csv_load_src {E}.
+
+(* the UTF-8 stream, chunk size K *)
+Definition csv_load_stream (K : nat) (sep : N) (keys : list (list N)) (text : list N) : outcome (list (list (option (list N)))) :=
+  csv_load_src (esr_read_chunk K) esr_is_end (length text) sep keys (esr_new K text).
+
+(* an arbitrary list of chunks: ReadChunk hands them out one after the other, then EndFile.  IsEnd becomes true with the
+   EndFile answer or - early = true - already with the last chunk (CEncodedStreamReader: when the read that filled its
+   last window hit the end of the file) *)
+Definition chunks_rd (early : bool) (c : list (list N) * bool) : option (list N) * (list (list N) * bool) :=
+  match fst c with
+  | [] => (None, ([], true))
+  | x :: r => (Some x, (r, snd c || (early && is_nil r)))
+  end.
+Definition chunks_iend (c : list (list N) * bool) : bool := is_nil (fst c) && snd c.
+
+Definition csv_load_chunks (early : bool) (sep : N) (keys : list (list N)) (chunks : list (list N)) : outcome (list (list (option (list N)))) :=
+  csv_load_src (chunks_rd early) chunks_iend (length (concat chunks)) sep keys (chunks, false).
 
 (* the library's chunk size (template default of CEncodedStreamReader) *)
 Definition chunk_size : nat := 256.
